@@ -40,7 +40,7 @@ def gates(tier):
     return {
         "min_decided": {a: 1500 * k for a in APIS},
         "shapes": {c: 3 * k for c in ["eps_rule", "nullable_cycle", "unary_cycle", "left_recursive", "useless_symbol",
-                                      "empty_language", "unary_rule", "ctx:nonviable", "ctx:viable", "ctx:has_eos", "w:Float", "w:Boolean", "w:Float-tiny", "w:Float-ones", "w:Float-huge", "clear_cache-between-queries"]} | {"long-context": 1},
+                                      "empty_language", "unary_rule", "ctx:nonviable", "ctx:viable", "ctx:has_eos", "w:Float", "w:Boolean", "w:Float-tiny", "w:Float-ones", "w:Float-huge", "clear_cache-between-queries", "scale:big-grammar"]} | {"long-context": 1},
         "min_hashseeds": 2,
     }
 
@@ -62,6 +62,13 @@ def gen_case(rng, spec):
         name = rng.choice(sorted(LONG_TEMPLATES))
         return {"long": name, "N": 300 if spec.get("tier") == "quick" else rng.choice([600, 1100]), "alg": "earley" if rng.random() < 0.8 else "cky"}
 
+    if rng.random() < 0.05:
+        # scale: 10-16 nonterminals, 6-10 terminals; contexts = prefixes of sampled members (up to 12 tokens) and edits
+        bigR = rng.choice(["Boolean", "Float"])
+        g = GG.gen_big_grammar(rng, recursion=bigR != "Q")
+        return {"g": {k: g[k] for k in ("S", "V", "rules")}, "R": bigR, "scale": None,
+                "clear_every": rng.choice([0, 0, 5, 11]), "maxlen": 1, "perm": rng.randrange(1 << 30) if rng.random() < 0.5 else None,
+                "rename": rng.choice([None, None, "int", "str", "tuple", "int0"]), "big": True}
     # mutual left recursion is where the left-corner filter of PREDICT can go wrong: a quarter of the cases
     g = GG.gen_grammar(rng, template="left_corner_cycle" if rng.random() < 0.25 else None)
     maxlen = 3 if spec.get("tier") == "quick" else 4
@@ -142,7 +149,12 @@ def run_case(case, ctx):
     rules = [(1, S2, (g0["S"], EOS))] + [(w, h, tuple(b)) for w, h, b in g0["rules"]]
     O = cfgref.bool_oracle(rules, S2, list(g0["V"]) + [EOS])
     alphabet = sorted(g0["V"]) + [EOS]
-    contexts = list(GG.strings_upto(alphabet, case["maxlen"]))
+    if case.get("big"):
+        ctx.shape["scale:big-grammar"] += 1
+        base_ctx = GG.case_strings(g0, 1, case.get("perm") or 13, k=6, max_len=12, prefixes=True)
+        contexts = base_ctx + [c + (EOS,) for c in base_ctx if len(c) != 1][:12] + [(EOS,)]
+    else:
+        contexts = list(GG.strings_upto(alphabet, case["maxlen"]))
     want = {}
     viable = {}
     for c in contexts:
